@@ -118,7 +118,7 @@ func lastLine(path string) string {
 	return s
 }
 
-func matchFinding(fs []Finding, v *Violation) *Finding {
+func MatchFinding(fs []Finding, v *Violation) *Finding {
 	for i := range fs {
 		f := &fs[i]
 		if f.Status != "known" || f.Property != v.Property {
@@ -194,6 +194,7 @@ func Supervise(self, id, tier string) int {
 	wg.Wait()
 
 	merged := Result{Exhaustive: true, Outcomes: map[string]int64{}, Counters: map[string]int64{}}
+	knownSeen := map[string]int{}
 	var viols []Violation
 	var skipped []string
 	harnessErr := false
@@ -224,6 +225,9 @@ func Supervise(self, id, tier string) int {
 		merged.Transitions += r.Transitions
 		merged.Traces += r.Traces
 		merged.NViolations += r.NViolations
+		for k, v := range r.Known {
+			knownSeen[k] += int(v)
+		}
 		for k, v := range r.Outcomes {
 			merged.Outcomes[k] += v
 		}
@@ -268,10 +272,9 @@ func Supervise(self, id, tier string) int {
 		}
 		return viols[i].Key < viols[j].Key
 	})
-	knownSeen := map[string]int{}
 	var fresh []Violation
 	for i := range viols {
-		if f := matchFinding(findings, &viols[i]); f != nil {
+		if f := MatchFinding(findings, &viols[i]); f != nil {
 			knownSeen[f.What]++
 		} else {
 			fresh = append(fresh, viols[i])
@@ -293,6 +296,13 @@ func Supervise(self, id, tier string) int {
 	reported := 0
 	nondeterministic := 0
 	os.MkdirAll(filepath.Join(root, "replays", id), 0o755)
+	if f, err := os.Create(filepath.Join(root, "replays", id, "_all.jsonl")); err == nil {
+		for i := range fresh {
+			b, _ := json.Marshal(fresh[i])
+			f.Write(append(b, '\n'))
+		}
+		f.Close()
+	}
 	for i := range fresh {
 		if reported >= 10 {
 			break
@@ -382,7 +392,7 @@ func Supervise(self, id, tier string) int {
 		fmt.Println(l)
 	}
 	fmt.Printf("%s %s: evaluations=%d distinct_nontrivial=%d states=%d transitions=%d outcomes=%d exhaustive=%v violations=%d known=%d wall=%.1fs\n",
-		id, tier, merged.Evals, merged.Nontrivial, merged.States, merged.Transitions, len(merged.Outcomes), merged.Exhaustive, len(fresh)+int(unkept), len(viols)-len(fresh), time.Since(start).Seconds())
+		id, tier, merged.Evals, merged.Nontrivial, merged.States, merged.Transitions, len(merged.Outcomes), merged.Exhaustive, len(fresh)+int(unkept), sumInts(knownSeen), time.Since(start).Seconds())
 	return exit
 }
 
@@ -448,4 +458,12 @@ func ReplayMain(path string) int {
 	}
 	fmt.Printf("REPLAY property=%s check=%s: passes\n", v.Property, v.Check)
 	return 0
+}
+
+func sumInts(m map[string]int) int {
+	n := 0
+	for _, v := range m {
+		n += v
+	}
+	return n
 }
